@@ -43,8 +43,16 @@ class _Rename(ast.NodeTransformer):
     return node
 
   def visit_FunctionDef(self, node):
-    if node.name != 'f':
+    if node.name != 'f' and not getattr(node, '_vf_method', False):
       node.name = self.m.get(node.name, node.name)
+    self.generic_visit(node)
+    return node
+
+  def visit_ClassDef(self, node):
+    # methods and class attributes are reached through attribute access, which is not renamed
+    for st in node.body:
+      if isinstance(st, ast.FunctionDef):
+        st._vf_method = True
     self.generic_visit(node)
     return node
 
@@ -65,6 +73,15 @@ def adversarial(prog, rnd):
   # only names that f (or a function nested in it) BINDS are renamed; references to
   # module-level helpers and builtins keep their meaning
   idents = set()
+  class_level = set()
+  for n in ast.walk(fnode):
+    if isinstance(n, ast.ClassDef):
+      for st in n.body:
+        if isinstance(st, ast.FunctionDef):
+          class_level.add(st.name)
+        for tg in getattr(st, 'targets', []) + ([st.target] if isinstance(st, (ast.AnnAssign, ast.AugAssign)) else []):
+          if isinstance(tg, ast.Name):
+            class_level.add(tg.id)
   for n in ast.walk(fnode):
     if isinstance(n, ast.Name) and isinstance(n.ctx, (ast.Store, ast.Del)):
       idents.add(n.id)
@@ -75,6 +92,7 @@ def adversarial(prog, rnd):
     elif isinstance(n, (ast.Global,)):
       idents -= set(n.names)
   idents -= KEEP
+  idents -= class_level      # class attributes / methods: accessed as attributes, never renamed
   idents = sorted(idents)
   names = rnd.sample(VOCAB, min(len(VOCAB), len(idents) + 2))
   mapping = dict(zip(idents, names))
@@ -159,28 +177,35 @@ f = _mk()
 # rewritten to `ag__.converted_call(..., <function scope name>)`, so a generated scope name
 # equal to the unread user name would be captured there.
 def param_role_programs():
+  """One role per program: a second occurrence of the name in another role (for instance as
+  an ast.Name) would reserve it by that route and hide a gap in the role under test."""
+  roles = {
+      'lambda_param': ('  k = lambda %(N)s, v: helper(v, 1) + t(1, v)', 'k(i, i)'),
+      'lambda_kwonly': ('  k = lambda v, *, %(N)s=0: helper(v, 1) + t(1, v)', 'k(i)'),
+      'lambda_vararg': ('  k = lambda v, *%(N)s: helper(v, 1) + t(1, v)', 'k(i, 7)'),
+      'lambda_kwarg': ('  k = lambda v, **%(N)s: helper(v, 1) + t(1, v)', 'k(i, z=7)'),
+      'def_param': ('  def k(%(N)s, v):\n    if v > x:\n      return helper(v, 2)\n    return v', 'k(0, i)'),
+      'def_kwonly': ('  def k(v, *, %(N)s=None):\n    if v > x:\n      return helper(v, 2)\n    return v', 'k(i)'),
+      'def_posonly': ('  def k(%(N)s, /, v):\n    if v > x:\n      return helper(v, 2)\n    return v', 'k(0, i)'),
+      'comp_target': ('  k = lambda v: sum([helper(v, 0) for %(N)s in (1, 2)])', 'k(i)'),
+  }
   out = []
-  for nm in ['fscope', 'lscope', 'fscope_1', 'do_return', 'retval_', 'get_state', 'loop_body', 'itr']:
-    src = gen.HELPER_SRC + '''def f(x, n, b, xs):
-  k = lambda %(N)s, v: helper(v, 1) + t(1, v)
-  def g(v, *, %(N)s=None):
-    if v > x:
-      return helper(v, 2)
-    return v
+  for nm in ['fscope', 'lscope', 'fscope_1', 'do_return']:
+    for role, (defn, call) in sorted(roles.items()):
+      src = 'def helper(p, q):\n  return p + q\n\ndef f(x, n, b, xs):\n' + (defn % {'N': nm}) + '''
   a = 0
   for i in range(n):
-    a = a + k(i, i) + g(i, %(N)s=i)
-  r = [helper(e, 0) for %(N)s in xs for e in (1, x)]
+    a = a + %(CALL)s
   if b:
-    return (a, r)
+    return (a, 0)
   w = 0
   while w < n:
     w = w + 1
     if w == x:
       break
-  return (a, r, w)
-''' % {'N': nm}
-    out.append(gen.Prog('par:%s' % nm, src, {'param_role'}))
+  return (a, w)
+''' % {'CALL': call}
+      out.append(gen.Prog('par:%s:%s' % (role, nm), src, {'param_role'}))
   return out
 
 
